@@ -164,7 +164,344 @@ def op_ewd(scn):
     return out
 
 
+
+def digest_graph(G, names):
+    idx = {nm: i for i, nm in enumerate(names)}
+    d = G.to_dict()
+    if d["vertices"] != list(names):
+        return {"bad_vertices": d["vertices"]}
+    return {
+        "edges": [[idx[a], idx[b], k] for a, b, k in d["edges"]],
+        "val": [G.vertex_total_valence[Vertex(nm)] for nm in names],
+        "total": G.total_valence,
+        "genus": G.get_genus(),
+    }
+
+
+def call(f, *a, **k):
+    """(ok, value) with only raise-vs-return reported"""
+    try:
+        return True, f(*a, **k)
+    except Timeout:
+        raise
+    except Exception:
+        return False, None
+
+
+@op("graph_hist")
+def op_graph_hist(scn):
+    c = Ctx(scn)
+    ok, G = call(c.graph, scn)
+    if not ok:
+        return {"ctor": "ERR"}
+    out = {"ctor": c.gdigest(G), "steps": []}
+    for o in scn.get("ops", []):
+        kind = o[0]
+        if kind == "add":
+            ok, _ = call(G.add_edge, c.name(o[1]), c.name(o[2]), o[3])
+            r = "ok" if ok else "ERR"
+        elif kind == "adds":
+            ok, _ = call(G.add_edges, c.edges(o[1]))
+            r = "ok" if ok else "ERR"
+        elif kind == "valence":
+            ok, v = call(G.get_valence, c.name(o[1]))
+            r = v if ok else "ERR"
+        elif kind == "remove":
+            ok, H = call(G.remove_vertex, c.name(o[1]))
+            if ok:
+                rest = [nm for i, nm in enumerate(c.names) if i != o[1]]
+                r = digest_graph(H, rest)
+            else:
+                r = "ERR"
+        else:
+            raise ValueError(kind)
+        out["steps"].append({"r": r, "g": c.gdigest(G)})
+    return out
+
+
+@op("div_hist")
+def op_div_hist(scn):
+    c = Ctx(scn)
+    ok, G = call(c.graph, scn)
+    if not ok:
+        return {"ctor": "ERR"}
+    ok, D = call(CFDivisor, G, [(c.name(i), k) for i, k in scn["entries"]])
+    if not ok:
+        return {"ctor": "ERR"}
+    cfg = None
+    if scn.get("q") is not None:
+        ok, cfg = call(CFConfig, D, c.name(scn["q"]))
+        if not ok:
+            return {"ctor": "ERR"}
+    out = {"ctor": {"deg": c.degs(D), "total": D.get_total_degree()}, "steps": []}
+    for o in scn.get("ops", []):
+        kind = o[0]
+        ret = None
+        if kind == "lend":
+            ok, _ = call(D.lending_move if not scn.get("alias") else D.firing_move, c.name(o[1]))
+        elif kind == "borrow":
+            ok, _ = call(D.borrowing_move, c.name(o[1]))
+        elif kind == "fire":
+            ok, _ = call(D.set_fire, {c.name(i) for i in o[1]})
+        elif kind == "transfer":
+            ok, _ = call(D.chip_transfer, c.name(o[1]), c.name(o[2]), o[3])
+        elif kind == "cfg_lend":
+            ok, _ = call(cfg.lending_move, c.name(o[1])) if cfg else (False, None)
+        elif kind == "cfg_borrow":
+            ok, _ = call(cfg.borrowing_move, c.name(o[1])) if cfg else (False, None)
+        elif kind == "cfg_fire":
+            ok, _ = call(cfg.set_fire, {c.name(i) for i in o[1]}) if cfg else (False, None)
+        elif kind == "cfg_degree_at":
+            ok, ret = call(cfg.get_degree_at, c.name(o[1])) if cfg else (False, None)
+        else:
+            raise ValueError(kind)
+        out["steps"].append({"ok": ok, "deg": c.degs(D), "ret": ret if ok else None,
+                             "total": D.get_total_degree(), "eff": D.is_effective()})
+    out["graph"] = c.gdigest(G)
+    return out
+
+
+def ddig(c, D):
+    return {"deg": c.degs(D), "total": D.get_total_degree()}
+
+
+@op("div_arith")
+def op_div_arith(scn):
+    c = Ctx(scn)
+    ok, G = call(c.graph, scn)
+    if not ok:
+        return {"ctor": "ERR"}
+    n = c.n
+    A = c.divisor(G, scn["A"])
+    Acopy = c.divisor(G, scn["A"])
+    if scn.get("names2") is not None:
+        names2 = [c.name(i) for i in scn["names2"]]
+        G2 = CFGraph(set(names2), [(c.name(a), c.name(b), k) for a, b, k in scn.get("edges2", [])])
+        vals = list(scn["B"]) + [0] * len(names2)
+        B = CFDivisor(G2, [(nm, vals[i]) for i, nm in enumerate(sorted(set(names2)))])
+        valsA = list(scn["A"]) + [0] * len(names2)
+        A2 = CFDivisor(G2, [(nm, valsA[i]) for i, nm in enumerate(sorted(set(names2)))])
+    elif scn.get("edges2") is not None:
+        G2 = CFGraph(set(c.names), c.edges(scn["edges2"]))
+        B = c.divisor(G2, scn["B"])
+        A2 = c.divisor(G2, scn["A"])
+    else:
+        G2 = G
+        B = c.divisor(G, scn["B"])
+        A2 = c.divisor(G, scn["A"])
+    C = c.divisor(G, scn["C"])
+    k = scn["k"]
+    out = {}
+
+    def d(okv):
+        ok, v = okv
+        return ddig(c, v) if ok else "ERR"
+    out["add"] = d(call(lambda: A + B))
+    out["sub"] = d(call(lambda: A - B))
+    out["neg"] = d(call(lambda: -A))
+    out["rmul"] = d(call(lambda: k * A))
+    out["eq_AB"] = bool(A == B)
+    out["eq_AA2"] = bool(A == A2)
+    out["eq_self"] = bool(A == Acopy)
+    out["add3"] = d(call(lambda: (A + B) + C))
+    out["chip"] = d(call(chipfiring.chip, G, c.name(scn["chipv"])))
+    from chipfiring.CFDivisor import zero
+    out["zero"] = d(call(zero, G))
+    out["A_after"] = ddig(c, A)
+    if G2 is G or scn.get("names2") is None:
+        out["B_after"] = ddig(c, B)
+    else:
+        out["B_after"] = {"deg": scn["B"], "total": sum(scn["B"])} if [B.degrees[Vertex(nm)] for nm in sorted(set(names2))] == (list(scn["B"]) + [0] * len(names2))[:len(set(names2))] else "CHANGED"
+    out["graph"] = c.gdigest(G)
+    return out
+
+
+@op("lap")
+def op_lap(scn):
+    c = Ctx(scn)
+    ok, G = call(c.graph, scn)
+    if not ok:
+        return {"ctor": "ERR"}
+    n = c.n
+    D = c.divisor(G, scn["deg"])
+    ok, S = call(CFiringScript, G, {c.name(i): k for i, k in scn.get("init", [])})
+    if not ok:
+        return {"ctor": "ERR"}
+    L = CFLaplacian(G)
+    out = {}
+    out["matrix"] = [[L.get_matrix_entry(a, b) for b in c.names] for a in c.names]
+    q = scn["q"]
+    if q < n:
+        red = L.get_reduced_matrix(Vertex(c.names[q]))
+        keep = [nm for i, nm in enumerate(c.names) if i != q]
+        ok_shape = set(red.keys()) == {Vertex(nm) for nm in keep} and all(set(red[Vertex(a)].keys()) == {Vertex(nm) for nm in keep} for a in keep)
+        out["reduced"] = [[red[Vertex(a)][Vertex(b)] for b in keep] for a in keep] if ok_shape else "BADSHAPE"
+    else:
+        out["reduced"] = None
+    ok, _ = call(L.get_matrix_entry, c.name(n + 3), c.name(0))
+    out["entry_bad"] = "ERR" if not ok else "RETURNED"
+    steps = []
+    for o in scn.get("sops", []):
+        ret = None
+        if o[0] == "set":
+            ok, _ = call(S.set_firings, c.name(o[1]), o[2])
+        elif o[0] == "update":
+            ok, _ = call(S.update_firings, c.name(o[1]), o[2])
+        else:
+            ok, ret = call(S.get_firings, c.name(o[1]))
+        sc = S.script
+        steps.append({"ok": ok, "s": [sc[nm] for nm in c.names], "ret": ret if ok else None})
+    out["steps"] = steps
+    sc = S.script
+    out["script"] = [sc[nm] for nm in c.names]
+    s_before = dict(S._script)
+    ok, res = call(L.apply, D, S)
+    if ok:
+        out["apply"] = ddig(c, res)
+        out["apply_tags"] = [tag(res.degrees[Vertex(nm)]) for nm in c.names]
+        try:
+            json.dumps(res.to_dict())
+            out["apply_json_ok"] = True
+        except Exception:
+            out["apply_json_ok"] = False
+    else:
+        out["apply"] = "ERR"
+        out["apply_tags"] = "ERR"
+        out["apply_json_ok"] = False
+    S2 = CFiringScript(G, dict(sc))
+    for i, k in enumerate(scn["s2"]):
+        S2.update_firings(c.names[i], k)
+    ok, r2 = call(L.apply, D, S2)
+    out["apply_sum"] = ddig(c, r2) if ok else "ERR"
+    Sb = CFiringScript(G, {c.names[i]: k for i, k in enumerate(scn["s2"])})
+    ok, r3 = call(lambda: L.apply(L.apply(D, S), Sb))
+    out["apply_seq"] = ddig(c, r3) if ok else "ERR"
+    out["D_after"] = ddig(c, D)
+    sc = S.script
+    out["s_after"] = [sc[nm] for nm in c.names] if dict(S._script) == s_before else "CHANGED"
+    out["graph"] = c.gdigest(G)
+    return out
+
+
+def odigest(c, G, O):
+    n = c.n
+    V = [Vertex(nm) for nm in c.names]
+    pairs, agree = [], True
+    flip = {OrientationState.NO_ORIENTATION: OrientationState.NO_ORIENTATION,
+            OrientationState.SOURCE_TO_SINK: OrientationState.SINK_TO_SOURCE,
+            OrientationState.SINK_TO_SOURCE: OrientationState.SOURCE_TO_SINK}
+    for i, u in enumerate(V):
+        for j, v in enumerate(V):
+            if v in G.graph[u]:
+                st = O.orientation[u][v]
+                if st == OrientationState.SOURCE_TO_SINK:
+                    pairs.append([i, j])
+                if O.orientation[v][u] != flip[st]:
+                    agree = False
+    return {"dir": pairs, "in": [O.in_degree[v] for v in V], "out": [O.out_degree[v] for v in V],
+            "agree": agree, "is_full": O.is_full, "checked": O.is_full_checked}
+
+
+@op("orient_hist")
+def op_orient_hist(scn):
+    c = Ctx(scn)
+    ok, G = call(c.graph, scn)
+    if not ok:
+        return {"ctor": "ERR"}
+    ok, O = call(CFOrientation, G, [(c.name(a), c.name(b)) for a, b in scn.get("init", [])])
+    if not ok:
+        return {"ctor": "ERR"}
+    out = {"ctor": odigest(c, G, O), "steps": []}
+    for o in scn.get("ops", []):
+        kind = o[0]
+        if kind == "set":
+            ok, _ = call(lambda: O.set_orientation(Vertex(c.name(o[1])), Vertex(c.name(o[2])), OrientationState(o[3])))
+            r = "ok" if ok else "ERR"
+        elif kind == "get":
+            ok, v = call(O.get_orientation, c.name(o[1]), c.name(o[2]))
+            r = "ERR" if not ok else (None if v is None else [c.index(v[0]), c.index(v[1])])
+        elif kind in ("is_source", "is_sink"):
+            ok, v = call(getattr(O, kind), c.name(o[1]), c.name(o[2]))
+            r = "ERR" if not ok else v
+        elif kind == "in":
+            ok, v = call(O.get_in_degree, c.name(o[1]))
+            r = v if ok else "ERR"
+        elif kind == "out":
+            ok, v = call(O.get_out_degree, c.name(o[1]))
+            r = v if ok else "ERR"
+        elif kind == "full":
+            ok, v = call(O.check_fullness)
+            r = v if ok else "ERR"
+        elif kind == "reverse":
+            ok, R = call(O.reverse)
+            r = odigest(c, G, R) if ok else "ERR"
+        elif kind == "divisor":
+            ok, Dv = call(O.divisor)
+            r = ddig(c, Dv) if ok else "ERR"
+        elif kind == "canonical":
+            ok, Dv = call(O.canonical_divisor)
+            r = ddig(c, Dv) if ok else "ERR"
+        else:
+            raise ValueError(kind)
+        out["steps"].append({"r": r, "o": odigest(c, G, O)})
+    out["graph"] = c.gdigest(G)
+    return out
+
+
+@op("config")
+def op_config(scn):
+    c = Ctx(scn)
+    ok, G = call(c.graph, scn)
+    if not ok:
+        return {"ctor": "ERR"}
+    D = c.divisor(G, scn["deg"])
+    ok, cfg = call(CFConfig, D, c.name(scn["q"]))
+    if not ok:
+        return {"ctor": "ERR"}
+    ans = []
+    for qu in scn.get("queries", []):
+        kind = qu[0]
+        if kind == "outdeg":
+            ok, v = call(cfg.get_out_degree_S, c.name(qu[1]), {c.name(i) for i in qu[2]})
+        elif kind == "legal":
+            ok, v = call(cfg.is_legal_set_firing, {c.name(i) for i in qu[1]})
+        elif kind == "superstable":
+            ok, v = call(cfg.is_superstable)
+        elif kind == "nonneg":
+            ok, v = call(cfg.is_non_negative)
+        elif kind == "degsum":
+            ok, v = call(cfg.get_degree_sum)
+        elif kind == "cmp":
+            opn, d2, q2, e2 = qu[1], qu[2], qu[3], qu[4]
+            G2 = G if e2 is None else CFGraph(set(c.names), c.edges(e2))
+            other = CFConfig(c.divisor(G2, d2), c.name(q2))
+            import operator
+            f = [operator.eq, operator.ge, operator.le, operator.lt, operator.gt][opn]
+            ok, v = call(f, cfg, other)
+            v = bool(v) if ok else None
+        else:
+            raise ValueError(kind)
+        ans.append(v if ok else "ERR")
+    return {"answers": ans, "deg_after": c.degs(D), "graph": c.gdigest(G)}
+
+
 # ----------------------------------------------------------------------------- main loop
+
+def _jsondefault(o):
+    """numbers that are not plain ints (numpy scalars) are reported by value; their type is
+    reported separately through `tag`"""
+    try:
+        import numpy as np
+        if isinstance(o, np.integer):
+            return int(o)
+        if isinstance(o, np.floating):
+            return {"float": repr(float(o))}
+        if isinstance(o, np.bool_):
+            return bool(o)
+    except ImportError:
+        pass
+    return {"unserialisable": type(o).__name__}
+
 
 def run_one(scn):
     f = OPS.get(scn["op"])
@@ -193,7 +530,7 @@ def main():
                 res = run_one(scn)
             except Exception as e:  # harness bug, not an observation
                 res = {"bad": f"{type(e).__name__}: {e}"}
-            fo.write(json.dumps(res) + "\n")
+            fo.write(json.dumps(res, default=_jsondefault) + "\n")
             fo.flush()
 
 
